@@ -66,6 +66,9 @@ def make_project(nfiles=1, nmod=1, nprog=1, nproc=1, ntype=1, nabs=0, nblock=0, 
             # a namelist in the specification part of a module (besides those inside procedures)
             L += ["  integer :: mnlv", "  namelist /modnl/ mnlv, mvar1", "  !! module-level namelist"]
         C = [f"subroutine msub{m}(a)", f"  !! module subroutine {m}", "  integer, intent(in) :: a", f"  !! argument of msub{m}"]
+        if m == 1 and ntype and links:
+            # a derived type local to a procedure: it has no page of its own, its documentation is shown with the procedure's internals
+            C += ["  type loct", "    !! a local type, see [[mod1]] and [[msub1]]", "    integer :: lcomp", "    !! a local component, see [[mod1]]", "  end type loct"]
         if m == 1:
             C += ["  " + l for l in nl_lines()]
         if m > 1:
